@@ -112,6 +112,28 @@ def transform(src):
     return scfg, out
 
 
+def rekeyed(scfg):
+    """replace, in place, every branching block whose value table is not in ascending key order by the equal block
+    with the table in that order; returns the names of the blocks touched"""
+    import dataclasses
+    from numba_scfg.core.datastructures.basic_block import SyntheticBranch, RegionBlock
+    touched = []
+    st = [scfg]
+    while st:
+        g = st.pop()
+        for k, b in list(g.graph.items()):
+            if isinstance(b, RegionBlock) and b.subregion is not None:
+                st.append(b.subregion)
+            elif isinstance(b, SyntheticBranch):
+                t = b.branch_value_table
+                if list(t) != sorted(t):
+                    nb = dataclasses.replace(b, branch_value_table={kk: t[kk] for kk in sorted(t)})
+                    assert nb == b
+                    g.graph[k] = nb
+                    touched.append(k)
+    return touched
+
+
 def check_c07_c10(src, ref):
     res = {}
     try:
@@ -147,6 +169,22 @@ def check_c07_c10(src, ref):
                     res['C10'] = ('fail', {'kind': 'second-generation:' + c2[1]['kind'], 'detail': c2[1]['detail']})
         except Exception as e:
             res['C10'] = ('fail', {'kind': 'second-generation-raises:' + type(e).__name__, 'detail': str(e)[:100]})
+    if res['C10'][0] == 'ok':
+        # the same restructured graph with every value table written in ascending key order (an equal block: dict equality
+        # ignores insertion order; this is also what a dictionary / YAML round trip or a fresh table gives) must generate a
+        # tree with the same census
+        rk = rekeyed(scfg)
+        if rk:
+            try:
+                from numba_scfg.core.datastructures.ast_transforms import SCFG2AST
+                out3 = SCFG2AST(src, scfg)
+                c3 = census(src, scfg, out3)
+                if c3[0] != 'ok':
+                    res['C10'] = ('fail', {'kind': 'rekeyed-table:' + c3[1]['kind'], 'detail': [rk[:2], c3[1]['detail']]})
+            except NotImplementedError:
+                pass
+            except Exception as e:
+                res['C10'] = ('fail', {'kind': 'rekeyed-table-raises:' + type(e).__name__, 'detail': str(e)[:100]})
     # ---- C07 behaviour
     try:
         text = ast.unparse(ast.fix_missing_locations(out))
